@@ -84,7 +84,7 @@ func TestVerif_C11_exec_hist(t *testing.T) {
 			}
 			c := vC11FromRH(eff)
 			failMode := r.Intn(3)
-			if r.Bool() {
+			if r.Bool() || len(c.Chains) == 0 {
 				failMode = 0
 			}
 			w := vC11GenWorld(r, c, failMode)
